@@ -1,6 +1,7 @@
 package vestingsc
 
 import (
+	"0chain.net/core/sortedmap"
 	"context"
 	"encoding/hex"
 	"encoding/json"
@@ -104,7 +105,8 @@ func (c *config) Decode(b []byte) error {
 }
 
 func (c *config) update(changes *config2.StringMap) error {
-	for key, value := range changes.Fields {
+	for _, key := range sortedmap.NewFromMap(changes.Fields).GetKeys() {
+		value := changes.Fields[key]
 		switch key {
 		case Settings[MinLock]:
 			if sbValue, err := strconv.ParseFloat(value, 64); err != nil {
